@@ -63,6 +63,11 @@ def _strategy(tier):
         # and hence the allocation do not depend on it): tiny or huge gains
         # with a matching noise level
         gscale_exp=st.sampled_from([0, 0, 0, 0, -24, -18, -15, -12, 9, 15]),
+        # total power placed at / next to the power at which one more
+        # channel is switched on (relative distance 1e-12..1e-3, or exactly)
+        pt_switch=st.one_of(st.none(), st.none(), st.none(), st.tuples(
+            fl(0.0, 1.0), st.integers(-12, -3),
+            st.sampled_from([-1, -1, 1, 0])).map(list)),
         perm_seed=seeds,
         simplex=st.lists(st.lists(fl(0.0, 1.0).map(lambda x: round(x, 6)),
                                   min_size=12, max_size=12),
@@ -106,6 +111,15 @@ def check(case, ctx):
         g = [x * 10.0 ** ge for x in g]
         N0 = N0 * 10.0 ** ge
         ctx.label("gains_scaled_1e%d" % ge)
+    sw = case.get("pt_switch")
+    if sw and n >= 2:
+        fl_sorted = sorted(N0 / (Es * gi) for gi in g)
+        k = 1 + int(sw[0] * (n - 1) * 0.999999)
+        T = math.fsum(fl_sorted[k] - fl_sorted[i] for i in range(k))
+        if T > 0 and math.isfinite(T):
+            Pt = T * (1.0 + sw[2] * 10.0 ** sw[1])
+            ctx.label("Pt_at_switching_point" if sw[2] == 0 else
+                      "Pt_near_switching_point")
     if gdtype.startswith("int") and not all(x == int(x) for x in g):
         gdtype = "float64"
     if gdtype == "float32" and not all(float(np.float32(x)) == x for x in g):
